@@ -382,7 +382,13 @@ func TestCLIDiagnostics(t *testing.T) {
 	for i, text := range texts {
 		e := expect(text)
 		dir := t.TempDir()
-		name := fmt.Sprintf("spec%d.ebnf", i)
+		// file names with characters that mean something to a formatter or a shell are names like any other
+		name := []string{"spec%d.ebnf", "my%%20spec.grammar", "100%%.ebnf", "%%s%%v.ebnf", "a b.ebnf", "spec%d(1).ebnf", "%%!s(MISSING).ebnf"}[i%7]
+		if strings.Contains(name, "%d") {
+			name = fmt.Sprintf(name, i)
+		} else {
+			name = strings.ReplaceAll(name, "%%", "%")
+		}
 		file := filepath.Join(dir, name)
 		if err := os.WriteFile(file, []byte(text), 0o644); err != nil {
 			t.Fatal(err)
